@@ -1,7 +1,7 @@
 (* C16 -- correspondence entry points: the implementation's recorded traces
    are checked for membership in the specified set (trace_ok), and their stage
    word is compared with the model's. *)
-From PyGql Require Import Run.Driver Spec.TraceSpec Exec.TraceModel Exec.RuntimeMachine Exec.TraceDeferred Exec.TraceLift Exec.TraceRequest.
+From PyGql Require Import Run.Driver Spec.TraceSpec Exec.TraceModel Exec.RuntimeMachine Exec.TraceDeferred Exec.TraceLift Exec.TraceRequest Exec.TraceListModel.
 
 (* what ApolloTracer.payload() exposes, as far as it depends on the hooks *)
 Record tracer_obs := mkTracer {
@@ -27,8 +27,10 @@ Record req := mkReq {
                                       (deferred runtimes; a field whose argument coercion fails is
                                       a synchronous resolver failure there) *)
   q_argerr : list TraceSpec.path;  (* ... and is marked here *)
-  q_drop_invoke : bool             (* asyncio: the coroutine body starts before its completion;
+  q_drop_invoke : bool;            (* asyncio: the coroutine body starts before its completion;
                                       compare without the Invoke events *)
+  q_lprog : option lfields         (* the operation for the completion model Exec/TraceListModel.v
+                                      (requests with list fields) *)
 }.
 Definition case_C16 : Type := req * list run_obs.
 
@@ -86,12 +88,23 @@ Definition checks (q : req) (r : run_obs) : list bool :=
 Definition agree_C16 (c : case_C16) : bool :=
   forallb (fun r => forallb (fun b => b) (checks (fst c) r)) (snd c).
 
+(* the completion model (Exec/TraceListModel.v) must start exactly the fields the
+   harness expects to be resolved (which trace_ok compares with the implementation) *)
+Definition list_model_ok (q : req) : bool :=
+  match q_lprog q with
+  | None => true
+  | Some fs =>
+      if list_eq_dec path_eq_dec (map fst (c_started (operation (fun _ => O) fs)))
+                                 (map nd_path (expected_roots (q_fields q)))
+      then true else false
+  end.
+
 (* Agreement of the executor machine + decoration with the implementation, run
    by run. Exact equality with a model is stricter than the property (a
    refactoring may move a hook within what trace_spec allows), so this is not
    part of agree_C16: mismatches are reported in the evidence as
    model disagreement / oracle freedom (DESIGN.md 4.5), not as violations. *)
-Definition machine_agree_C16 (c : case_C16) : bool := forallb (machine_ok (fst c)) (snd c).
+Definition machine_agree_C16 (c : case_C16) : bool := forallb (machine_ok (fst c)) (snd c) && list_model_ok (fst c).
 
 (* diagnostics: per run, which parts fail (1 stage word, 2 nesting in execution,
    3 unknown field path, 4 per-field word, 5 parent order, 6 stage word vs model,
